@@ -25,14 +25,14 @@ const (
 
 // A ReplayFile is a minimised failing run.
 type ReplayFile struct {
-	Property    string   `json:"property"`
-	Tier        string   `json:"tier"`
-	Engine      string   `json:"engine"`
-	TreeHash    string   `json:"repo_tree_hash"`
-	Seed        uint64   `json:"seed"`
-	BaseSeed    uint64   `json:"verif_seed"`
-	RunIndex    int      `json:"run_index"`
-	Tape        []uint32 `json:"tape"`
+	Property string   `json:"property"`
+	Tier     string   `json:"tier"`
+	Engine   string   `json:"engine"`
+	TreeHash string   `json:"repo_tree_hash"`
+	Seed     uint64   `json:"seed"`
+	BaseSeed uint64   `json:"verif_seed"`
+	RunIndex int      `json:"run_index"`
+	Tape     []uint32 `json:"tape"`
 	// PrefixRuns: run indices to execute (in search mode, same process) before the
 	// tape. Only used when the violation depends on state the code under test
 	// keeps process-wide, left behind by earlier runs of the same worker.
@@ -811,78 +811,67 @@ func parentMain(eng Engine, o *Options) int {
 
 	if len(viols) > 0 {
 		sort.Slice(viols, func(i, j int) bool { return viols[i].RunIndex < viols[j].RunIndex })
-		chosen = viols[0]
 
 		if err := os.MkdirAll(o.ReplayDir, 0o755); err != nil {
 			harness("replay dir: %v", err)
 		}
 
-		path := filepath.Join(o.ReplayDir, fmt.Sprintf("%s-seed%d-run%d.json", o.Property, int64(o.Seed), chosen.RunIndex))
-		b, _ := json.MarshalIndent(chosen, "", " ")
+		// Candidates are confirmed in a fresh process, lowest run first. One that does not
+		// reproduce (the code under test keeps nondeterministic process-wide state, e.g. a
+		// sync.Pool) gives way to the next; if none reproduces the first one is reported
+		// all the same, flagged: a violation was observed against the real code.
+		var (
+			path                 string
+			unconfirmed          []string
+			attempts, reproduced int
+		)
 
-		if err := os.WriteFile(path, b, 0o644); err != nil {
-			harness("write replay: %v", err)
-		}
+	candidates:
+		for ci := 0; ci <= len(viols); ci++ {
+			if ci == len(viols) {
+				chosen = viols[0]
+				path = filepath.Join(o.ReplayDir, fmt.Sprintf("%s-seed%d-run%d.json", o.Property, int64(o.Seed), chosen.RunIndex))
+				fmt.Printf("UNREPRODUCED: %d failing runs were observed in this batch but none fails again in a fresh process (nondeterministic process-wide state in the code under test); reporting the first one\n", len(viols))
 
-		// The minimised tape must fail the same way in a fresh process.
-		attempts, reproduced := 1, 0
-		if flaky, ok := eng.(interface{ ReplayAttempts(sig string) int }); ok {
-			attempts = flaky.ReplayAttempts(chosen.Signature)
-		}
-
-		var vout []byte
-
-		for a := 0; a < attempts; a++ {
-			vc := exec.Command(os.Args[0], "-replay", path, "-verify", "-known", o.KnownPath)
-			vc.Env = append(os.Environ(), WorkerEnv(eng, tmp, 1000+a)...)
-
-			var verr error
-
-			vout, verr = vc.CombinedOutput()
-			if ee, ok := verr.(*exec.ExitError); ok && ee.ExitCode() == ExitViol {
-				reproduced++
+				break
 			}
-		}
 
-		if reproduced == 0 && attempts == 1 && len(chosen.Original) > 0 {
-			// Shrinking runs candidates in one process; if the code under test keeps
-			// process-wide state (a pool, a memo), a candidate can fail only because of
-			// what an earlier candidate left behind. Fall back to the tape as found.
-			fmt.Printf("the minimised tape does not fail in a fresh process (process-wide state in the code under test misled the shrinker); falling back to the tape as found\n")
-
-			chosen.Tape, chosen.Signature, chosen.Message = chosen.Original, chosen.OriginalSig, chosen.OriginalMsg
-			chosen.EventHash, chosen.Trace = "not-comparable", []string{"(unshrunk tape; the trace is printed by ./run.sh replay)"}
+			chosen = viols[ci]
+			path = filepath.Join(o.ReplayDir, fmt.Sprintf("%s-seed%d-run%d.json", o.Property, int64(o.Seed), chosen.RunIndex))
 			b, _ := json.MarshalIndent(chosen, "", " ")
 
 			if err := os.WriteFile(path, b, 0o644); err != nil {
 				harness("write replay: %v", err)
 			}
 
-			vc := exec.Command(os.Args[0], "-replay", path, "-verify", "-known", o.KnownPath)
-			vc.Env = append(os.Environ(), WorkerEnv(eng, tmp, 2000)...)
-
-			var verr error
-
-			vout, verr = vc.CombinedOutput()
-			if ee, ok := verr.(*exec.ExitError); ok && ee.ExitCode() == ExitViol {
-				reproduced++
-			}
-		}
-
-		if reproduced == 0 && attempts == 1 && chosen.WorkerStep > 0 {
-			// The run depends on what earlier runs of its worker left in process-wide
-			// state of the code under test: replay the last 1, 2, 4, ... of them first.
-			var all []int
-			for i := chosen.WorkerFirst; i < chosen.RunIndex; i += chosen.WorkerStep {
-				all = append(all, i)
+			// The minimised tape must fail the same way in a fresh process.
+			attempts, reproduced = 1, 0
+			if flaky, ok := eng.(interface{ ReplayAttempts(sig string) int }); ok {
+				attempts = flaky.ReplayAttempts(chosen.Signature)
 			}
 
-			for n := 1; reproduced == 0; n *= 2 {
-				if n > len(all) {
-					n = len(all)
+			var vout []byte
+
+			for a := 0; a < attempts; a++ {
+				vc := exec.Command(os.Args[0], "-replay", path, "-verify", "-known", o.KnownPath)
+				vc.Env = append(os.Environ(), WorkerEnv(eng, tmp, 1000+a)...)
+
+				var verr error
+
+				vout, verr = vc.CombinedOutput()
+				if ee, ok := verr.(*exec.ExitError); ok && ee.ExitCode() == ExitViol {
+					reproduced++
 				}
+			}
 
-				chosen.PrefixRuns = all[len(all)-n:]
+			if reproduced == 0 && attempts == 1 && len(chosen.Original) > 0 {
+				// Shrinking runs candidates in one process; if the code under test keeps
+				// process-wide state (a pool, a memo), a candidate can fail only because of
+				// what an earlier candidate left behind. Fall back to the tape as found.
+				fmt.Printf("the minimised tape does not fail in a fresh process (process-wide state in the code under test misled the shrinker); falling back to the tape as found\n")
+
+				chosen.Tape, chosen.Signature, chosen.Message = chosen.Original, chosen.OriginalSig, chosen.OriginalMsg
+				chosen.EventHash, chosen.Trace = "not-comparable", []string{"(unshrunk tape; the trace is printed by ./run.sh replay)"}
 				b, _ := json.MarshalIndent(chosen, "", " ")
 
 				if err := os.WriteFile(path, b, 0o644); err != nil {
@@ -890,28 +879,76 @@ func parentMain(eng Engine, o *Options) int {
 				}
 
 				vc := exec.Command(os.Args[0], "-replay", path, "-verify", "-known", o.KnownPath)
-				vc.Env = append(os.Environ(), WorkerEnv(eng, tmp, 3000+n)...)
+				vc.Env = append(os.Environ(), WorkerEnv(eng, tmp, 2000)...)
 
 				var verr error
 
 				vout, verr = vc.CombinedOutput()
 				if ee, ok := verr.(*exec.ExitError); ok && ee.ExitCode() == ExitViol {
 					reproduced++
-					fmt.Printf("the violation depends on process-wide state of the code under test: it reproduces in a fresh process when the %d preceding runs of its worker are replayed first (recorded in the replay file)\n", n)
-				}
-
-				if n == len(all) {
-					break
 				}
 			}
+
+			if reproduced == 0 && attempts == 1 && chosen.WorkerStep > 0 {
+				// The run depends on what earlier runs of its worker left in process-wide
+				// state of the code under test: replay the last 1, 2, 4, ... of them first.
+				var all []int
+				for i := chosen.WorkerFirst; i < chosen.RunIndex; i += chosen.WorkerStep {
+					all = append(all, i)
+				}
+
+				for n := 1; reproduced == 0; n *= 2 {
+					if n > len(all) {
+						n = len(all)
+					}
+
+					chosen.PrefixRuns = all[len(all)-n:]
+					b, _ := json.MarshalIndent(chosen, "", " ")
+
+					if err := os.WriteFile(path, b, 0o644); err != nil {
+						harness("write replay: %v", err)
+					}
+
+					vc := exec.Command(os.Args[0], "-replay", path, "-verify", "-known", o.KnownPath)
+					vc.Env = append(os.Environ(), WorkerEnv(eng, tmp, 3000+n)...)
+
+					var verr error
+
+					vout, verr = vc.CombinedOutput()
+					if ee, ok := verr.(*exec.ExitError); ok && ee.ExitCode() == ExitViol {
+						reproduced++
+						fmt.Printf("the violation depends on process-wide state of the code under test: it reproduces in a fresh process when the %d preceding runs of its worker are replayed first (recorded in the replay file)\n", n)
+					}
+
+					if n == len(all) {
+						break
+					}
+				}
+			}
+
+			if reproduced == 0 && attempts == 1 {
+				unconfirmed = append(unconfirmed, path)
+				_ = vout
+
+				if ci < 8 {
+					continue candidates
+				}
+
+				ci = len(viols) - 1
+
+				continue candidates
+			}
+
+			chosen.Original = nil
+
+			break
 		}
 
-		if reproduced == 0 && attempts == 1 {
-			fmt.Printf("%s", vout)
-			harness("the failing run of %s does not reproduce in a fresh process, not even after its worker's earlier runs", path)
+		for _, u := range unconfirmed {
+			if u != path {
+				os.Remove(u)
+			}
 		}
-
-		chosen.Original = nil
 
 		if attempts > 1 {
 			fmt.Printf("replay of the recorded schedule in fresh processes: the report was reproduced in %d of %d (the schedule replays exactly; whether the race detector reports depends on happens-before edges that sync.Pool inside fmt / encoding/json adds at random)\n", reproduced, attempts)
@@ -1018,33 +1055,33 @@ func writeEvidence(eng Engine, o *Options, agg *Stats, wall float64, nviol int, 
 	distinct := len(agg.RunHashes)
 
 	cov := map[string]interface{}{
-		"evaluations":              agg.Runs,
-		"distinct_nontrivial":      distinct,
-		"rule":                     d.Rule,
-		"samples":                  samples,
-		"exhaustive":               false,
-		"runs_planned":             planned,
-		"wall_clock_cap_reached":   capped,
-		"runs_per_hour":            int64(float64(agg.Runs) / wall * 3600),
-		"seeds":                    fmt.Sprintf("VERIF_SEED=%d; run i uses seed Mix(Mix(VERIF_SEED, hash(property)), i), i in [0,%d)", int64(o.Seed), planned),
-		"scheduler_steps":          agg.Steps,
-		"operations_by_kind":       ops,
-		"fault_kinds_fired":        faults,
-		"probes_hit":               probes,
-		"probes_stuck_at_zero":     stuck,
-		"counters":                 counters,
-		"distinct_model_states":    len(agg.States),
-		"distinct_run_event_logs":  distinct,
+		"evaluations":                      agg.Runs,
+		"distinct_nontrivial":              distinct,
+		"rule":                             d.Rule,
+		"samples":                          samples,
+		"exhaustive":                       false,
+		"runs_planned":                     planned,
+		"wall_clock_cap_reached":           capped,
+		"runs_per_hour":                    int64(float64(agg.Runs) / wall * 3600),
+		"seeds":                            fmt.Sprintf("VERIF_SEED=%d; run i uses seed Mix(Mix(VERIF_SEED, hash(property)), i), i in [0,%d)", int64(o.Seed), planned),
+		"scheduler_steps":                  agg.Steps,
+		"operations_by_kind":               ops,
+		"fault_kinds_fired":                faults,
+		"probes_hit":                       probes,
+		"probes_stuck_at_zero":             stuck,
+		"counters":                         counters,
+		"distinct_model_states":            len(agg.States),
+		"distinct_run_event_logs":          distinct,
 		"distinct_counts_are_lower_bounds": agg.SetsCapped,
-		"s1_map_range_executions":  agg.MOApplied,
-		"s1_non_identity_orders":   agg.MONonIdent,
-		"simulated_time":           "not applicable: the library reads no clock and has no timer; progress is counted in scheduler steps and operations",
-		"components_real":          d.Real,
-		"components_stub":          d.Stub,
-		"known_findings_met":       agg.Known,
-		"worker_processes":         o.Workers,
-		"repo_tree_hash":           o.TreeHash,
-		"technique":                "deterministic simulation with fault injection (seeded tape, replayable, shrinking)",
+		"s1_map_range_executions":          agg.MOApplied,
+		"s1_non_identity_orders":           agg.MONonIdent,
+		"simulated_time":                   "not applicable: the library reads no clock and has no timer; progress is counted in scheduler steps and operations",
+		"components_real":                  d.Real,
+		"components_stub":                  d.Stub,
+		"known_findings_met":               agg.Known,
+		"worker_processes":                 o.Workers,
+		"repo_tree_hash":                   o.TreeHash,
+		"technique":                        "deterministic simulation with fault injection (seeded tape, replayable, shrinking)",
 	}
 
 	ev := map[string]interface{}{
